@@ -167,6 +167,13 @@ class Translator(object):
             return name(nm)
         if k == 'MemberExpr':
             base = self.expr(n['inner'][0])
+            bt = self.qualtype(self.strip(n['inner'][0]))
+            if re.match(r'^G?S?List \*$', bt.replace('struct _', '')) and not (isinstance(base, pyast.Name) and base.id in self.list_vars):
+                # GList / GSList used as a sequence: node->data is the first element, node->next the rest
+                if n['name'] == 'data':
+                    return pyast.Subscript(value=base, slice=const(0), ctx=pyast.Load())
+                if n['name'] == 'next':
+                    return pyast.Subscript(value=base, slice=pyast.Slice(lower=const(1), upper=None, step=None), ctx=pyast.Load())
             return attr(base, n['name'])
         if k == 'CStyleCastExpr':
             inner = n['inner'][0]
